@@ -91,6 +91,7 @@ func (e *Engine) closureHavoc(st *State, clo *Closure) {
 		return
 	}
 	ms := newModSet()
+	ms.topFn = clo.Fn
 	seen := map[*ssa.Function]bool{clo.Fn: true}
 	for _, b := range clo.Fn.Blocks {
 		e.scanBlockMods(b, nil, ms, 0, seen)
